@@ -136,6 +136,49 @@ structure World where
 def World.step (w : World) (op : HdrOp) : World := { w with hdr := w.hdr.apply op }
 def World.run (w : World) (ops : List HdrOp) : World := ops.foldl World.step w
 
+/-! ### header OBJECTS and the proxy: a reference plus copies
+
+    Python hands `ArrayProxy.__init__` a REFERENCE to a mutable header object.  `__init__` copies
+    shape, dtype (item size), offset, slope, intercept into private attributes (arrayproxy.py:203-216)
+    and every read uses those.  The heap below lets the model express the alternative — a proxy that
+    keeps the reference and consults the header when it reads (`readParamsAlias`) — so that "reads use
+    the copies" is a statement with content (`frozen_reads`, `frozen_alias_counterexample`). -/
+
+instance : Inhabited Hdr := ⟨⟨[], 0, 0, none, none⟩⟩
+
+/-- the proxy object: which header object it was built from, and the values copied at construction -/
+structure ProxyObj where
+  hdrRef : Nat
+  copied : Params Int
+  deriving Repr, DecidableEq
+
+/-- all header objects alive (cell number = identity) and the proxy -/
+structure Heap where
+  hdrs  : List Hdr
+  proxy : ProxyObj
+  deriving Repr, DecidableEq
+
+/-- `ArrayProxy(file_like, hdrs[ref])` -/
+def newProxy (o : Order) (hdrs : List Hdr) (ref : Nat) : Heap :=
+  ⟨hdrs, ⟨ref, proxyOfHdr o (hdrs.getD ref default)⟩⟩
+
+/-- a header mutator called on header object `op.1` (any object, incl. the one the proxy was built from) -/
+def Heap.step (w : Heap) (op : Nat × HdrOp) : Heap :=
+  { w with hdrs := w.hdrs.modify op.1 (fun h => h.apply op.2) }
+def Heap.run (w : Heap) (ops : List (Nat × HdrOp)) : Heap := ops.foldl Heap.step w
+
+/-- the parameters a read uses — the code: the private copies -/
+def Heap.readParams (w : Heap) : Params Int := w.proxy.copied
+/-- the aliasing variant: ask the header object (through the kept reference) at read time -/
+def Heap.readParamsAlias (o : Order) (w : Heap) : Params Int := proxyOfHdr o (w.hdrs.getD w.proxy.hdrRef default)
+
+def Heap.read {ρ β} (f : ρ → Int → Int → β) (raw : Int → ρ) (h : Heuristic) (w : Heap) (idx : List IdxItem) :
+    Except Err (List Nat × List β) :=
+  getScaled f raw h w.readParams idx
+def Heap.readAlias {ρ β} (o : Order) (f : ρ → Int → Int → β) (raw : Int → ρ) (h : Heuristic) (w : Heap) (idx : List IdxItem) :
+    Except Err (List Nat × List β) :=
+  getScaled f raw h (w.readParamsAlias o) idx
+
 /-! ### ECAT: frame assembly -/
 
 /-- split canonical items at the `k`-th real (non-newaxis) item:
@@ -315,6 +358,19 @@ def afniScaling {σ} (isZero : σ → Bool) (one : σ) (nvol : Nat) (facs : Opti
 def afniScaleSlots (shape : List Nat) (idx : List IdxItem) : Except Err (List Nat × List Nat) := do
   let r ← npIndex idx shape .F
   pure (r.1, r.2.map (· / (shape.dropLast).prod))
+
+/-- `np.broadcast_arrays(fake_data, self.scaling)[1]` (brikhead.py:258-259) as factor SLOTS in F order:
+    NumPy aligns the length-`T` vector with the LAST axis, so the array of shape `(…, T)` consists of
+    `T` blocks of `P = ∏ shape[:-1]` elements, block `t` filled with factor `t`. -/
+def afniBroadcast (shape : List Nat) : List Nat :=
+  (List.range (shape.getLast?.getD 0)).flatMap (fun t => List.replicate (shape.dropLast).prod t)
+
+/-- `scaling[slicer]` (brikhead.py:265): NumPy indexing of the BROADCAST array with the same index as
+    the data — per output element the slot of the factor it is multiplied with.  (Theorem
+    `afni_scale_alongside`: that is the sub-brick `q / P` the element's source voxel `q` lies in.) -/
+def afniScaleSlotsB (shape : List Nat) (idx : List IdxItem) : Except Err (List Nat × List Nat) := do
+  let r ← npIndex idx shape .F
+  pure (r.1, r.2.map (fun q => (afniBroadcast shape).getD q 0))
 
 /-! ### MINC -/
 
